@@ -1,4 +1,6 @@
 """C14 - constraints mean what set theory says and cannot be bypassed."""
+import copy
+import pickle
 from pyasn1 import error
 from pyasn1.type import univ, char, constraint, namedtype, tag as ptag, base as _base
 
@@ -202,6 +204,22 @@ def run_case(case):
                     cv = T.clone(py(kind, x))
                 except error.PyAsn1Error:
                     cv = None
+                # the value may have travelled (pickled to another process and back, copied): it is still a value of the child type
+                tr = case.get('transport', 'none')
+                if cv is not None and tr != 'none':
+                    try:
+                        if tr == 'pickle':
+                            cv = pickle.loads(pickle.dumps(cv))
+                        elif tr == 'copy':
+                            cv = copy.copy(cv)
+                        elif tr == 'deepcopy':
+                            cv = copy.deepcopy(cv)
+                        else:
+                            cv = pickle.loads(pickle.dumps(T)).clone(py(kind, x))
+                    except Exception:
+                        pass        # classes made on the fly do not pickle; whether a value can travel is not what the property states
+                    if cv is not None and not chain[-2].isSuperTypeOf(cv):
+                        F('chain', 'not-supertype', 'after %s the parent no longer recognises the child value | %s' % (tr, desc), sig='transport')
                 if cv is not None:
                     rec = univ.Sequence(componentType=namedtype.NamedTypes(namedtype.NamedType('f', parent)))
                     seqof = univ.SequenceOf(componentType=parent)
@@ -379,7 +397,7 @@ def run_shard(desc, seed, tier, col):
             else:
                 cands += ['']
             return {'what': 'scalar', 'kind': kind, 'exprs': exprs, 'tags': tags, 'cands': cands, 'operands': [d.int(-300, 300), d.pick([2, 7, 128, -129])],
-                    'bare': d.pct(50), 'root_class': d.pct(25)}
+                    'bare': d.pct(50), 'root_class': d.pct(25), 'transport': d.pick(['none', 'none', 'pickle', 'copy', 'deepcopy', 'pickle-type'])}
         if r < 9:
             kind = d.pick(['SEQUENCEOF', 'SETOF'])
             c = cons.draw_expr(d, kind, d.pick([1, 2, 3]))
